@@ -316,6 +316,22 @@ def run_history(ctx, k, L):
                         ctx.fail("oracle", "group value_from[%d] != member value_from (mode %s)" % (x, mode),
                                  dict(inp, ep=[st2, en2], src=tsrc), impl=[ns_arr(vf[x].t), vf[x].values.tolist()],
                                  expected=[ns_arr(ref.t), ref.values.tolist()])
+                # without ep (the source's own support decides), a source living on a multi-interval support that does not cover the
+                # group's support; and count() without ep (the group's support decides)
+                src2 = nap.Tsd(farr(tsrc, SC), np.arange(len(tsrc), dtype=float) + 1, time_support=ep2)
+                if len(src2):
+                    vf0 = g.value_from(src2, mode=mode)
+                    for x in ks:
+                        ref = g[x].value_from(src2, mode=mode)
+                        if not np.array_equal(vf0[x].values, ref.values, equal_nan=True) or ns_arr(vf0[x].t) != ns_arr(ref.t) or \
+                                iset_ns(vf0[x].time_support) != iset_ns(ref.time_support):
+                            ctx.fail("oracle", "group value_from(src) without ep [%d] != member value_from(src) (mode %s)" % (x, mode),
+                                     dict(inp, src_support=[st2, en2], src=tsrc), impl=[ns_arr(vf0[x].t), vf0[x].values.tolist()],
+                                     expected=[ns_arr(ref.t), ref.values.tolist()])
+                cnt0 = g.count(b)
+                for j, x in enumerate(ks):
+                    if not np.array_equal(np.asarray(cnt0.values)[:, j], np.asarray(g[x].count(b, g.time_support).values)):
+                        ctx.fail("oracle", "group count(bin) without ep, column %d != member count on the group support" % x, dict(inp))
                 ctx.count("group_level_ops")
             except Exception as e:
                 ctx.fail("oracle", "group-level count / trial_count / value_from raised %r" % (e,), dict(inp))
@@ -352,5 +368,5 @@ def run(ctx):
 
 
 def replay(ctx, rec):
-    print("re-run `./check C12 quick` with VERIF_SEED=%s; failing input: %s" % (rec.get("seed"), rec.get("input")))
-    return False
+    print("re-executing the recorded run of `./check C12 quick` with VERIF_SEED=%s; failing input: %s" % (rec.get("seed"), rec.get("input")))
+    return None
